@@ -1,101 +1,32 @@
 """facts_C09.py -- structural facts of the server life-cycle code copied into coq/Gen/FactsC09.v (property C09).
 
-`ast` only; grpclib is never imported.  Fail-closed: the statement skeletons of the functions that
-Model/ServerLife.v transcribes by hand must be exactly the ones the model was written against; any other
-shape raises Unsupported, the generated file disappears and Model/ServerLife.v (which imports the GC
-intervals from it) stops compiling, so the tie is reported broken.
+`ast` only; grpclib is never imported.  Fail-closed: if the MEANING of one of the functions that
+Model/ServerLife.v transcribes is no longer the one the model was written against, Unsupported is raised,
+the generated file disappears and Model/ServerLife.v (which imports the GC intervals from it) stops compiling,
+so the tie is reported broken.
 
-What is extracted / checked
-  * Handler.__gc_interval__ and Server.__gc_interval__ (used by the model), _GC.__gc_step__
-  * Handler.accept / cancel / close / wait_closed / check_closed / __gc_collect__
-  * Server.close / wait_closed / __gc_collect__ / _protocol_factory (first statement)
-  * request_handler: outermost try ... finally: release_stream(); `await method_func(stream)` lexically
-    inside `with deadline_wrapper, wrapper:`
-  * protocol.Stream.__terminated__, EventsProcessor.process_stream_reset / close, register.release_stream
-  * utils.Wrapper.__enter__ / __exit__ / cancel, _first_stage / _second_stage / _exit_handler
+Meaning, not spelling.  Every function is first brought to a normal form by a small symbolic executor:
+  * docstrings, annotations, asserts, `cast(..)`, logging calls and `pass` are dropped;
+  * calls of private helpers of the same class / module (`self._x(..)`, `_x(..)`, also awaited) are executed
+    in place (extract-method / inline-method are invisible), tuple results are destructured;
+  * locals are renamed in order of appearance, a local bound once to a side-effect-free expression is
+    replaced by that expression; private attributes of `self` are renamed by ROLE (order of first use in a
+    fixed list of methods), so renaming `_cancelled` is invisible;
+  * branching is turned into a decision table over the atomic conditions (if/elif/else, early returns,
+    guards, hoisted common tails, De Morgan'd tests all give the same table);
+  * `X.update(E)` is `for v in E: X.add(v)`, neighbouring loops over the same iterable are fused, and where
+    the order inside a loop body is immaterial (declared per fact) the body is sorted.
+Where even that is too literal the fact is stated at the granularity the model needs (which awaits happen in
+which order, what is iterated, which object is stored where).
+
+Dropped on purpose: utils._first_stage/_second_stage/_exit_handler (no theorem uses their shape; the stage
+logic is tied by executing graceful_exit on every started/not-started vector, see harness/drive_C09.py).
 """
 import ast
+import copy
+import itertools
 
 from extract_facts import Unsupported, parse, func_node, class_node, ceval
-
-
-def canon(node):
-    return ' '.join(ast.unparse(node).split())
-
-
-def body_of(fn):
-    b = list(fn.body)
-    if b and isinstance(b[0], ast.Expr) and isinstance(b[0].value, ast.Constant) and isinstance(b[0].value.value, str):
-        b = b[1:]
-    return [canon(s) for s in b]
-
-
-EXPECTED = {
-    ('grpclib/server.py', '_GC', '__gc_step__'): [
-        'self._gc_counter += 1',
-        'if not self._gc_counter % self.__gc_interval__: self.__gc_collect__()'],
-    ('grpclib/server.py', 'Handler', '__gc_collect__'): [
-        'self._tasks = {s: t for s, t in self._tasks.items() if not t.done()}',
-        'self._cancelled = {t for t in self._cancelled if not t.done()}'],
-    ('grpclib/server.py', 'Handler', 'accept'): [
-        'self.__gc_step__()',
-        'task = self._tasks[stream] = self.loop.create_task(request_handler(self.mapping, stream, headers, '
-        'self.codec, self.status_details_codec, self.dispatch, release_stream))',
-        'task.add_done_callback(lambda _: release_stream())'],
-    ('grpclib/server.py', 'Handler', 'cancel'): [
-        'task = self._tasks.pop(stream, None)',
-        'if task is not None: task.cancel() self._cancelled.add(task)'],
-    ('grpclib/server.py', 'Handler', 'close'): [
-        'for task in self._tasks.values(): task.cancel()',
-        'self._cancelled.update(self._tasks.values())',
-        'self.closing = True'],
-    ('grpclib/server.py', 'Handler', 'wait_closed'): [
-        'if self._cancelled: await asyncio.wait(self._cancelled)'],
-    ('grpclib/server.py', 'Handler', 'check_closed'): [
-        'self.__gc_collect__()', 'return not self._tasks and (not self._cancelled)'],
-    ('grpclib/server.py', 'Server', '__gc_collect__'): [
-        'self._handlers = {h for h in self._handlers if not (h.closing and h.check_closed())}'],
-    ('grpclib/server.py', 'Server', '_protocol_factory'): [
-        'self.__gc_step__()',
-        'handler = Handler(self._mapping, self._codec, self._status_details_codec, self.__dispatch__)',
-        'self._handlers.add(handler)',
-        'return H2Protocol(handler, self._config, self._h2_config)'],
-    ('grpclib/server.py', 'Server', 'close'): [
-        "if self._server is None or self._server_closed_fut is None: raise RuntimeError('Server is not started')",
-        'self._server.close()',
-        'if not self._server_closed_fut.done(): self._server_closed_fut.set_result(None)',
-        'for handler in self._handlers: handler.close()'],
-    ('grpclib/server.py', 'Server', 'wait_closed'): [
-        "if self._server is None or self._server_closed_fut is None: raise RuntimeError('Server is not started')",
-        'await self._server_closed_fut',
-        'await self._server.wait_closed()',
-        'if self._handlers: await asyncio.wait({self._loop.create_task(h.wait_closed()) for h in self._handlers})'],
-    ('grpclib/protocol.py', 'Stream', '__terminated__'): [
-        'if self.wrapper is not None: self.wrapper.cancel(StreamTerminatedError(reason))'],
-    ('grpclib/protocol.py', 'EventsProcessor', 'close'): [
-        'self.connection.close()',
-        'self.handler.close()',
-        'for stream in self.streams.values(): stream.__terminated__(reason)',
-        "if hasattr(self, 'processors'): del self.processors"],
-    ('grpclib/utils.py', 'Wrapper', '__enter__'): [
-        'if self._error is not None: raise self._error',
-        'task = _current_task()',
-        "if task is None: raise RuntimeError('Called not inside a task')",
-        'self._tasks.add(task)'],
-    ('grpclib/utils.py', 'Wrapper', '__exit__'): [
-        'task = _current_task()', 'assert task', 'self._tasks.discard(task)',
-        'if self._error is not None: self.cancel_failed = exc_type is not asyncio.CancelledError raise self._error'],
-    ('grpclib/utils.py', 'Wrapper', 'cancel'): [
-        'self._error = error', 'for task in self._tasks: task.cancel()', 'self.cancelled = True'],
-    ('grpclib/utils.py', None, '_first_stage'): [
-        'fail = False',
-        'for server in servers: try: server.close() except RuntimeError: fail = True',
-        'if fail: _second_stage(sig_num)'],
-    ('grpclib/utils.py', None, '_second_stage'): ['raise SystemExit(128 + sig_num)'],
-    ('grpclib/utils.py', None, '_exit_handler'): [
-        "if flag: _second_stage(cast('signal.Signals', sig_num)) else: "
-        "_first_stage(cast('signal.Signals', sig_num), servers) flag.append(True)"],
-}
 
 
 def need(cond, what):
@@ -103,69 +34,676 @@ def need(cond, what):
         raise Unsupported('C09 facts: ' + what)
 
 
+# ---- noise ----------------------------------------------------------------------------------------------
+
+def is_log_call(node):
+    return isinstance(node, ast.Call) and isinstance(node.func, ast.Attribute) and \
+        isinstance(node.func.value, ast.Name) and node.func.value.id in ('log', 'logger', 'logging')
+
+
+class Strip(ast.NodeTransformer):
+    def visit_Call(self, node):
+        self.generic_visit(node)
+        if isinstance(node.func, ast.Name) and node.func.id == 'cast' and len(node.args) == 2:
+            return node.args[1]
+        return node
+
+
+def clean_body(body):
+    out = []
+    for s in body:
+        if isinstance(s, ast.Expr) and isinstance(s.value, ast.Constant):
+            continue
+        if isinstance(s, (ast.Pass, ast.Assert)):
+            continue
+        if isinstance(s, ast.Expr) and is_log_call(s.value):
+            continue
+        if isinstance(s, ast.AnnAssign):
+            if s.value is None:
+                continue
+            s = ast.Assign(targets=[s.target], value=s.value)
+        out.append(s)
+    return out
+
+
+# ---- the symbolic executor ------------------------------------------------------------------------------
+
+class Ctx:
+    """one normalisation run: a class (or module) whose private helpers may be executed in place"""
+
+    def __init__(self, tree, cls=None, attr_roles=None, unordered=False):
+        self.tree, self.cls = tree, cls
+        self.methods = {}
+        if cls is not None:
+            for c in self._mro(cls):
+                for n in c.body:
+                    if isinstance(n, (ast.FunctionDef, ast.AsyncFunctionDef)):
+                        self.methods.setdefault(n.name, n)
+        self.functions = {n.name: n for n in tree.body if isinstance(n, (ast.FunctionDef, ast.AsyncFunctionDef))}
+        self.attr_roles = attr_roles if attr_roles is not None else {}
+        self.unordered = unordered
+        self.nlocal = 0
+        self.depth = 0
+
+    def _mro(self, cls):
+        out = [cls]
+        for b in cls.bases:
+            if isinstance(b, ast.Name):
+                for n in self.tree.body:
+                    if isinstance(n, ast.ClassDef) and n.name == b.id:
+                        out += self._mro(n)
+        return out
+
+    def helper(self, call):
+        """the FunctionDef of a private helper this call refers to, or None"""
+        f = call.func
+        if isinstance(f, ast.Attribute) and isinstance(f.value, ast.Name) and f.value.id == 'self' \
+                and f.attr.startswith('_') and not f.attr.startswith('__') and f.attr in self.methods:
+            return self.methods[f.attr], True
+        if isinstance(f, ast.Name) and f.id.startswith('_') and not f.id.startswith('__') and f.id in self.functions:
+            return self.functions[f.id], False
+        return None
+
+    def fresh(self):
+        self.nlocal += 1
+        return 'v%d' % self.nlocal
+
+
+class Subst(ast.NodeTransformer):
+    def __init__(self, ctx, env):
+        self.ctx, self.env = ctx, env
+
+    def visit_Name(self, node):
+        if node.id in self.env:
+            return copy.deepcopy(self.env[node.id])
+        return node
+
+    def visit_Attribute(self, node):
+        self.generic_visit(node)
+        if isinstance(node.value, ast.Name) and node.value.id == 'self' and node.attr.startswith('_') \
+                and not node.attr.startswith('__') and node.attr not in self.ctx.methods:
+            role = self.ctx.attr_roles.setdefault(node.attr, 'A%d' % len(self.ctx.attr_roles))
+            return ast.Attribute(value=node.value, attr=role, ctx=node.ctx)
+        return node
+
+    def visit_Call(self, node):
+        self.generic_visit(node)
+        if isinstance(node.func, ast.Name) and node.func.id == 'cast' and len(node.args) == 2:
+            return node.args[1]
+        return node
+
+
+def show(ctx, env, node):
+    return ' '.join(ast.unparse(Subst(ctx, env).visit(copy.deepcopy(node))).split())
+
+
+def pure(node):
+    """side-effect free AND without identity: may be substituted for the local it is bound to"""
+    return not any(isinstance(n, (ast.Call, ast.Await, ast.Yield, ast.YieldFrom, ast.NamedExpr, ast.List, ast.Dict,
+                                  ast.Set, ast.ListComp, ast.SetComp, ast.DictComp, ast.GeneratorExp, ast.Lambda))
+                   for n in ast.walk(node))
+
+
+class Path:
+    def __init__(self, cond=(), trace=(), env=None, out=None):
+        self.cond, self.trace, self.env, self.out = cond, trace, dict(env or {}), out
+
+    def fork(self, **kw):
+        p = Path(self.cond, self.trace, self.env, self.out)
+        for k, v in kw.items():
+            setattr(p, k, v)
+        return p
+
+
+def atoms_of(test):
+    """-> evaluator(valuation) and the list of atomic condition nodes of a boolean test"""
+    if isinstance(test, ast.BoolOp):
+        subs = [atoms_of(v) for v in test.values]
+        if isinstance(test.op, ast.And):
+            return ('and', subs)
+        return ('or', subs)
+    if isinstance(test, ast.UnaryOp) and isinstance(test.op, ast.Not):
+        return ('not', atoms_of(test.operand))
+    if isinstance(test, ast.Compare) and len(test.ops) == 1 and isinstance(test.ops[0], (ast.IsNot, ast.NotEq)):
+        pos = ast.Compare(left=test.left, ops=[ast.Is() if isinstance(test.ops[0], ast.IsNot) else ast.Eq()],
+                          comparators=test.comparators)
+        return ('not', ('atom', pos))
+    if isinstance(test, ast.Constant):
+        return ('const', bool(test.value))
+    return ('atom', test)
+
+
+def eval_test(ctx, path, tree):
+    """-> [(path', bool)] forking on undecided atoms (short-circuit order)"""
+    kind = tree[0]
+    if kind == 'const':
+        return [(path, tree[1])]
+    if kind == 'not':
+        return [(p, not v) for p, v in eval_test(ctx, path, tree[1])]
+    if kind in ('and', 'or'):
+        res = [(path, kind == 'and')]
+        for sub in tree[1]:
+            nxt = []
+            for p, v in res:
+                if v != (kind == 'and'):
+                    nxt.append((p, v))
+                else:
+                    nxt += eval_test(ctx, p, sub)
+            res = nxt
+        return res
+    node = tree[1]
+    out = []
+    # a private predicate helper inside a test is executed in place
+    if isinstance(node, ast.Call) and ctx.helper(node):
+        for p, val in call_helper(ctx, path, node):
+            if isinstance(val, ast.Constant):
+                out.append((p, bool(val.value)))
+            else:
+                out += eval_test(ctx, p, atoms_of(val) if val is not None else ('const', False))
+        return out
+    key = show(ctx, path.env, node)
+    known = dict(path.cond)
+    if key in known:
+        return [(path, known[key])]
+    return [(path.fork(cond=path.cond + ((key, True),)), True), (path.fork(cond=path.cond + ((key, False),)), False)]
+
+
+def call_helper(ctx, path, call, awaited=False):
+    """execute a private helper in place -> [(path', returned expression or None)]"""
+    fn, is_method = ctx.helper(call)
+    need(ctx.depth < 4, 'helper nesting too deep at ' + ast.unparse(call))
+    params = [a.arg for a in fn.args.args]
+    if is_method:
+        params = params[1:]
+    need(len(call.args) <= len(params) and not fn.args.vararg and not fn.args.kwarg, 'helper call shape ' + ast.unparse(call))
+    sub = Subst(ctx, path.env)
+    env = {}
+    actual = {p: a for p, a in zip(params, call.args)}
+    for kw in call.keywords:
+        actual[kw.arg] = kw.value
+    defaults = dict(zip(params[len(params) - len(fn.args.defaults):], fn.args.defaults))
+    for p in params:
+        a = actual.get(p, defaults.get(p))
+        need(a is not None, 'helper argument %s of %s' % (p, fn.name))
+        a = sub.visit(copy.deepcopy(a))
+        if pure(a):
+            env[p] = a
+        else:
+            name = ctx.fresh()
+            path = path.fork(trace=path.trace + ('%s = %s' % (name, ' '.join(ast.unparse(a).split())),))
+            env[p] = ast.Name(id=name, ctx=ast.Load())
+    ctx.depth += 1
+    res = []
+    for p in run(ctx, clean_body(fn.body), [path.fork(env=env, out=None)]):
+        if p.out is None or p.out[0] == 'return':
+            res.append((p.fork(env=path.env, out=None), p.out[1] if p.out else None))
+        else:
+            res.append((p.fork(env=path.env), None))        # raised: propagates
+    ctx.depth -= 1
+    return res
+
+
+def effect_of_value(ctx, path, value, bind=None):
+    """evaluate an expression with side effects -> [(path', expression node standing for its value)]"""
+    awaited = isinstance(value, ast.Await)
+    inner = value.value if awaited else value
+    if isinstance(inner, ast.Call) and ctx.helper(inner):
+        return call_helper(ctx, path, inner, awaited)
+    text = ('await ' if awaited else '') + show(ctx, path.env, inner)
+    if bind is None:
+        return [(path.fork(trace=path.trace + (text,)), None)]
+    name = ctx.fresh()
+    return [(path.fork(trace=path.trace + ('%s = %s' % (name, text),)), ast.Name(id=name, ctx=ast.Load()))]
+
+
+def assign(ctx, path, target, valnode):
+    """bind / store one target"""
+    if isinstance(target, ast.Name):
+        env = dict(path.env)
+        env[target.id] = valnode
+        return path.fork(env=env)
+    if isinstance(target, (ast.Tuple, ast.List)) and isinstance(valnode, (ast.Tuple, ast.List)) \
+            and len(target.elts) == len(valnode.elts):
+        for t, v in zip(target.elts, valnode.elts):
+            path = assign(ctx, path, t, v)
+        return path
+    return path.fork(trace=path.trace + ('%s := %s' % (show(ctx, path.env, target), show(ctx, {}, valnode)),))
+
+
+def block_text(ctx, body, env):
+    """normal form of a nested block (loop / try body) as text"""
+    saved = ctx.nlocal
+    table = table_of(ctx, run(ctx, clean_body(body), [Path(env=env)]))
+    return '{' + ' | '.join(table) + '}'
+
+
+def run(ctx, body, paths):
+    for stmt in body:
+        nxt = []
+        for path in paths:
+            if path.out is not None:
+                nxt.append(path)
+                continue
+            nxt += step(ctx, stmt, path)
+        paths = nxt
+    return paths
+
+
+def step(ctx, s, path):
+    if isinstance(s, ast.Return):
+        if s.value is None:
+            return [path.fork(out=('return', None))]
+        if pure(s.value) and ctx.depth == 0 and isinstance(
+                Subst(ctx, path.env).visit(copy.deepcopy(s.value)), (ast.BoolOp, ast.UnaryOp)):
+            # a boolean result is its truth table (De Morgan'd spellings coincide)
+            val = Subst(ctx, path.env).visit(copy.deepcopy(s.value))
+            return [p.fork(out=('return', str(v))) for p, v in eval_test(ctx, path, atoms_of(val))]
+        if pure(s.value):
+            return [path.fork(out=('return', Subst(ctx, path.env).visit(copy.deepcopy(s.value))))]
+        return [p.fork(out=('return', v)) if p.out is None else p for p, v in effect_of_value(ctx, path, s.value, bind=True)]
+    if isinstance(s, ast.Raise):
+        return [path.fork(out=('raise', show(ctx, path.env, s.exc) if s.exc else 'reraise'))]
+    if isinstance(s, ast.Expr):
+        return [p for p, _ in effect_of_value(ctx, path, s.value)]
+    if isinstance(s, ast.Assign):
+        if pure(s.value):
+            val = Subst(ctx, path.env).visit(copy.deepcopy(s.value))
+            for t in s.targets:
+                path = assign(ctx, path, t, val)
+            return [path]
+        out = []
+        for p, v in effect_of_value(ctx, path, s.value, bind=True):
+            if p.out is None and v is not None:
+                for t in s.targets:
+                    p = assign(ctx, p, t, v)
+            out.append(p)
+        return out
+    if isinstance(s, ast.AugAssign):
+        op = {ast.Add: '+', ast.Sub: '-'}.get(type(s.op), type(s.op).__name__)
+        return [path.fork(trace=path.trace + ('%s %s= %s' % (show(ctx, path.env, s.target), op, show(ctx, path.env, s.value)),))]
+    if isinstance(s, ast.If):
+        out = []
+        test = Subst(ctx, path.env).visit(copy.deepcopy(s.test)) if pure(s.test) else s.test
+        for p, v in eval_test(ctx, path, atoms_of(test)):
+            if p.out is not None:
+                out.append(p)
+            else:
+                out += run(ctx, clean_body(s.body if v else s.orelse), [p])
+        return out
+    if isinstance(s, (ast.For, ast.AsyncFor)):
+        need(not s.orelse, 'for-else')
+        var = 'e%d' % (ctx.depth + len([t for t in path.trace if t.startswith('for ')]))
+        env = dict(path.env)
+        if isinstance(s.target, ast.Name):
+            env[s.target.id] = ast.Name(id='item', ctx=ast.Load())
+        else:
+            need(False, 'loop target ' + ast.unparse(s.target))
+        body = block_text(ctx, s.body, env)
+        return [path.fork(trace=path.trace + ('for item in %s %s' % (show(ctx, path.env, s.iter), body),))]
+    if isinstance(s, ast.Try):
+        parts = ['try ' + block_text(ctx, s.body, path.env)]
+        for h in s.handlers:
+            parts.append('except %s %s' % (show(ctx, {}, h.type) if h.type else '*', block_text(ctx, h.body, path.env)))
+        if s.orelse:
+            parts.append('else ' + block_text(ctx, s.orelse, path.env))
+        if s.finalbody:
+            parts.append('finally ' + block_text(ctx, s.finalbody, path.env))
+        return [path.fork(trace=path.trace + (' '.join(parts),))]
+    if isinstance(s, ast.Delete):
+        return [path.fork(trace=path.trace + ('del ' + ', '.join(show(ctx, path.env, t) for t in s.targets),))]
+    if isinstance(s, (ast.With, ast.AsyncWith)):
+        items = ', '.join(show(ctx, path.env, i.context_expr) for i in s.items)
+        return [path.fork(trace=path.trace + ('with %s %s' % (items, block_text(ctx, s.body, path.env)),))]
+    if isinstance(s, (ast.FunctionDef, ast.AsyncFunctionDef)):
+        return [path]
+    raise Unsupported('C09 facts: statement ' + type(s).__name__)
+
+
+def normalise_trace(ctx, trace):
+    """update -> loop of add, fuse neighbouring loops over the same iterable, optionally sort loop bodies"""
+    out = []
+    for t in trace:
+        if not t.startswith('for item in ') and '.update(' in t and t.endswith(')') and '=' not in t.split('.update(')[0]:
+            recv, arg = t.split('.update(', 1)
+            t = 'for item in %s {%s.add(item)}' % (arg[:-1], recv)
+        if t.startswith('for item in ') and out and out[-1].startswith('for item in '):
+            h1, b1 = out[-1].split(' {', 1)
+            h2, b2 = t.split(' {', 1)
+            if h1 == h2 and '|' not in b1 and '|' not in b2:
+                out[-1] = '%s {%s; %s}' % (h1, b1[:-1].split(' -> ')[0], b2[:-1].split(' -> ')[0])
+                continue
+        out.append(t)
+    if ctx.unordered:
+        res = []
+        for t in out:
+            if t.startswith('for item in ') and '|' not in t:
+                h, b = t.split(' {', 1)
+                t = '%s {%s}' % (h, '; '.join(sorted(x.strip() for x in b[:-1].split(' -> ')[0].split(';'))))
+            res.append(t)
+        out = res
+    return out
+
+
+def table_of(ctx, paths):
+    """the decision table: one line per complete valuation of the atoms that occur, sorted"""
+    atoms = sorted({a for p in paths for a, _ in p.cond})
+    lines = set()
+    for vals in itertools.product([True, False], repeat=len(atoms)):
+        val = dict(zip(atoms, vals))
+        for p in paths:
+            if all(val[a] == v for a, v in p.cond):
+                tr = normalise_trace(ctx, p.trace)
+                out = ''
+                if p.out is not None and not (p.out[0] == 'return' and (p.out[1] is None or (
+                        isinstance(p.out[1], ast.Constant) and p.out[1].value is None))):
+                    o = p.out[1]
+                    out = ' -> %s %s' % (p.out[0], o if isinstance(o, str) else (show(ctx, {}, o) if o is not None else ''))
+                guard = ' & '.join(('' if val[a] else 'not ') + '(' + a + ')' for a in atoms)
+                lines.add(('%s: ' % guard if guard else '') + '; '.join(tr) + out.rstrip())
+    need(len(atoms) <= 6, 'too many conditions')
+    return sorted(lines)
+
+
+def normal_form(tree, cls_name, fn_name, attr_roles, unordered=False, fn=None):
+    cls = class_node(tree, cls_name) if cls_name else None
+    ctx = Ctx(tree, cls, attr_roles, unordered)
+    fn = fn or func_node(tree, fn_name, cls_name)
+    env = {}
+    args = [a.arg for a in fn.args.args]
+    for k, a in enumerate(args):
+        if not (k == 0 and a in ('self', 'cls')):
+            env[a] = ast.Name(id='p%d' % k, ctx=ast.Load())
+    return table_of(ctx, run(ctx, clean_body(fn.body), [Path(env=env)]))
+
+
+# ---- expected meanings ------------------------------------------------------------------------------------
+# private attributes of self are A0, A1, ... per class in order of first use along the list below;
+# parameters p1, p2, ...; locals v1, v2, ...
+
+HANDLER = [   # roles: A0 = _tasks, A1 = _cancelled
+    ('accept', False, [
+        'self.__gc_step__(); v1 = self.loop.create_task(request_handler(self.mapping, p1, p2, self.codec, '
+        'self.status_details_codec, self.dispatch, p3)); self.A0[p1] := v1; '
+        'v1.add_done_callback(lambda _: p3())']),
+    ('cancel', False, [
+        '(v1 is None): v1 = self.A0.pop(p1, None)',
+        'not (v1 is None): v1 = self.A0.pop(p1, None); v1.cancel(); self.A1.add(v1)']),
+    ('close', True, [
+        'for item in self.A0.values() {item.cancel(); self.A1.add(item)}; self.closing := True']),
+    ('wait_closed', False, [
+        '(self.A1): await asyncio.wait(self.A1)', 'not (self.A1): ']),
+    ('check_closed', False, [
+        '(self.A0) & (self.A1): self.__gc_collect__() -> return False',
+        '(self.A0) & not (self.A1): self.__gc_collect__() -> return False',
+        'not (self.A0) & (self.A1): self.__gc_collect__() -> return False',
+        'not (self.A0) & not (self.A1): self.__gc_collect__() -> return True']),
+    ('__gc_collect__', False, [
+        'v1 = {s: t for s, t in self.A0.items() if not t.done()}; self.A0 := v1; '
+        'v2 = {t for t in self.A1 if not t.done()}; self.A1 := v2']),
+]
+GC = [('__gc_step__', False, [   # A0 = _gc_counter
+    '(self.A0 % self.__gc_interval__): self.A0 += 1',
+    'not (self.A0 % self.__gc_interval__): self.A0 += 1; self.__gc_collect__()'])]
+SERVER = [    # A0 = _handlers, A1 = _mapping ...
+    ('__gc_collect__', False, ['v1 = {h for h in self.A0 if not (h.closing and h.check_closed())}; self.A0 := v1']),
+]
+STREAM = [('__terminated__', False, [
+    '(self.wrapper is None): ', 'not (self.wrapper is None): self.wrapper.cancel(StreamTerminatedError(p1))'])]
+PROCESSOR = [
+    ('close', False, [
+        "(hasattr(self, 'processors')): self.connection.close(); self.handler.close(); "
+        "for item in self.streams.values() {item.__terminated__(p1)}; del self.processors",
+        "not (hasattr(self, 'processors')): self.connection.close(); self.handler.close(); "
+        "for item in self.streams.values() {item.__terminated__(p1)}"]),
+]
+WRAPPER = [   # A0 = _tasks (one set PER wrapper, made in __init__), A1 = _error
+    ('__init__', False, ['v1 = set(); self.A0 := v1']),
+    ('cancel', False, ['self.A1 := p1; for item in self.A0 {item.cancel()}; self.cancelled := True']),
+    ('__enter__', False, [
+        "(self.A1 is None) & (v1 is None): v1 = _current_task() -> raise RuntimeError('Called not inside a task')",
+        '(self.A1 is None) & not (v1 is None): v1 = _current_task(); self.A0.add(v1)',
+        'not (self.A1 is None) & (v1 is None):  -> raise self.A1',
+        'not (self.A1 is None) & not (v1 is None):  -> raise self.A1']),
+]
+
+
+def check_table(tree, rel, cls, specs, checked):
+    roles = {}
+    for name, unordered, expected in specs:
+        got = normal_form(tree, cls, name, roles, unordered)
+        need(got == sorted(expected), '%s %s.%s means something else now:\n  expected %r\n  found    %r'
+             % (rel, cls, name, sorted(expected), got))
+        checked.append('%s:%s.%s' % (rel, cls, name))
+    return roles
+
+
+# ---- facts stated at a coarser granularity ------------------------------------------------------------------
+
+def linear(tree, cls, name):
+    """all effects of a function in program order, helpers executed in place (single path required per guard)"""
+    roles = {}
+    return normal_form(tree, cls, name, roles), roles
+
+
+def paths_of(tree, cls_name, fn_name, roles, fn=None):
+    """the paths of a function after normalisation: [(conditions dict, effects list, outcome)]"""
+    cls = class_node(tree, cls_name) if cls_name else None
+    ctx = Ctx(tree, cls, roles)
+    fn = fn or func_node(tree, fn_name, cls_name)
+    env = {}
+    for k, a in enumerate(x.arg for x in fn.args.args):
+        if not (k == 0 and a in ('self', 'cls')):
+            env[a] = ast.Name(id='p%d' % k, ctx=ast.Load())
+    out = []
+    for p in run(ctx, clean_body(fn.body), [Path(env=env)]):
+        o = p.out
+        if o is not None and o[0] == 'return' and o[1] is not None and not isinstance(o[1], str):
+            o = ('return', show(ctx, {}, o[1]))
+        out.append((dict(p.cond), normalise_trace(ctx, p.trace), o))
+    return out
+
+
+def raises(o, text=None):
+    return o is not None and o[0] == 'raise' and (text is None or o[1] == text)
+
+
+def check_server(tree, checked):
+    rel = 'grpclib/server.py'
+    roles = check_table(tree, rel, 'Server', SERVER, checked)         # A0 = the handlers collection
+    # _protocol_factory: a GC step, then a new Handler joins the handlers collection and is given to the protocol
+    ps = paths_of(tree, 'Server', '_protocol_factory', roles)
+    need(len(ps) == 1, '_protocol_factory branches')
+    _, eff, o = ps[0]
+    hv = [e.split(' = ')[0] for e in eff if ' = Handler(' in e]
+    need(eff[0] == 'self.__gc_step__()' and len(hv) == 1 and 'self.A0.add(%s)' % hv[0] in eff
+         and any(' = H2Protocol(%s, ' % hv[0] in e for e in eff) and o is not None and o[0] == 'return',
+         'Server._protocol_factory: %r' % (eff,))
+    checked.append(rel + ':Server._protocol_factory')
+    # close(): refuse when not started (nothing done before); close the asyncio server; set the latch unless
+    # it is set; close every handler of the collection
+    ps = paths_of(tree, 'Server', 'close', roles)
+    bad = [p for p in ps if raises(p[2])]
+    good = [p for p in ps if not raises(p[2])]
+    need(bad and good and all(p[2][1] == "RuntimeError('Server is not started')" and not p[1] for p in bad),
+         'Server.close when not started: %r' % (bad,))
+    for cond, eff, o in good:
+        need(all(not v for a, v in cond.items() if a.endswith(' is None')), 'Server.close start check: %r' % (cond,))
+        need(len(eff) >= 2 and eff[0].endswith('.close()') and eff[-1] == 'for item in self.A0 {item.close()}',
+             'Server.close effects: %r' % (eff,))
+        mid = eff[1:-1]
+        done = [v for a, v in cond.items() if a.endswith('.done()')]
+        need(len(done) == 1 and len(mid) == (0 if done[0] else 1) and all(m.endswith('.set_result(None)') for m in mid),
+             'Server.close latch: %r %r' % (cond, eff))
+    checked.append(rel + ':Server.close')
+    # wait_closed(): refuse when not started; await the latch, then the asyncio server, then -- reading the
+    # handlers collection only now -- asyncio.wait over one task per handler.wait_closed(), unless there is none
+    ps = paths_of(tree, 'Server', 'wait_closed', roles)
+    bad = [p for p in ps if raises(p[2])]
+    good = [p for p in ps if not raises(p[2])]
+    need(bad and good and all(p[2][1] == "RuntimeError('Server is not started')" and not p[1] for p in bad),
+         'Server.wait_closed when not started')
+    waited = False
+    for cond, eff, o in good:
+        aw = [k for k, t in enumerate(eff) if 'await ' in t]
+        need(len(aw) in (2, 3) and eff[aw[1]].endswith('.wait_closed()') and 'asyncio.wait' not in eff[aw[0]] + eff[aw[1]],
+             'Server.wait_closed awaits: %r' % (eff,))
+        first_read = min([k for k, t in enumerate(eff) if 'self.A0' in t] or [len(eff)])
+        need(first_read > aw[1], 'Server.wait_closed reads the handlers before the asyncio server is closed: %r' % (eff,))
+        if len(aw) == 3:
+            need('asyncio.wait(' in eff[aw[2]] and aw[2] == len(eff) - 1, 'Server.wait_closed last await: %r' % (eff,))
+            text = ' '.join(eff[aw[1]:])
+            need('.wait_closed())' in text and 'create_task(' in text and 'self.A0' in text,
+                 'Server.wait_closed: one task per handler.wait_closed() of the collection: %r' % text)
+            waited = True
+        else:
+            need(any(not v and not a.endswith(' is None') for a, v in cond.items()),
+                 'Server.wait_closed skips the handlers unconditionally: %r' % (cond,))
+    need(waited, 'Server.wait_closed never waits for the handlers')
+    checked.append(rel + ':Server.wait_closed')
+
+
+def check_request_handler(tree, checked):
+    fn = func_node(tree, 'request_handler')
+    body = clean_body(fn.body)
+    need(len(body) == 1 and isinstance(body[0], ast.Try), 'request_handler is one try statement')
+    t = body[0]
+    fin = clean_body(t.finalbody)
+    need(len(fin) == 1 and isinstance(fin[0], ast.Expr) and isinstance(fin[0].value, ast.Call)
+         and isinstance(fin[0].value.func, ast.Name) and not fin[0].value.args, 'request_handler finally: release_stream()')
+    rel_name = fin[0].value.func.id
+    need(rel_name in [a.arg for a in fn.args.args], 'the finally clause calls the release callback parameter')
+    for h in t.handlers:
+        need(h.type is not None and ast.unparse(h.type) not in ('BaseException', 'asyncio.CancelledError', 'CancelledError'),
+             'request_handler outer handlers must let CancelledError through')
+    # the user function is awaited inside `with <deadline ctx>, <W>` and W is the object stored on the stream
+    withs = [w for w in ast.walk(t) if isinstance(w, ast.With)
+             and any(isinstance(s, ast.Expr) and isinstance(s.value, ast.Await) and 'method_func' in ast.unparse(s.value)
+                     for s in clean_body(w.body))]
+    need(len(withs) == 1, 'one with-block around the user function')
+    w = withs[0]
+    names = [i.context_expr.id for i in w.items if isinstance(i.context_expr, ast.Name)]
+    need(len(names) == len(w.items) and len(names) >= 1, 'with items are names')
+    # alias classes of local names, constructor calls they may hold
+    holds, alias = {}, {}
+    stores = []
+    for a in ast.walk(t):
+        if isinstance(a, (ast.Assign, ast.AnnAssign)) and getattr(a, 'value', None) is not None:
+            targets = a.targets if isinstance(a, ast.Assign) else [a.target]
+            tn = [x.id for x in targets if isinstance(x, ast.Name)]
+            if isinstance(a.value, ast.Call) and isinstance(a.value.func, ast.Name):
+                for n in tn:
+                    holds.setdefault(n, set()).add(a.value.func.id)
+            elif isinstance(a.value, ast.Name):
+                for n in tn:
+                    alias.setdefault(n, set()).add(a.value.id)
+            for x in targets:
+                if isinstance(x, ast.Attribute) and x.attr == 'wrapper':
+                    stores.append((a, set(tn) | ({a.value.id} if isinstance(a.value, ast.Name) else set()), a.value))
+
+    def ctor(n, seen=()):
+        out = set(holds.get(n, ()))
+        for m in alias.get(n, ()):
+            if m not in seen:
+                out |= ctor(m, seen + (n,))
+        return out
+    wname = names[-1]
+    need(ctor(wname) == {'Wrapper', 'DeadlineWrapper'}, 'the entered wrapper is a Wrapper or a DeadlineWrapper: %r' % ctor(wname))
+    need(stores, 'the wrapper is stored on the protocol stream (Stream.__terminated__ reaches it)')
+    # ... on every path: each creation of a wrapper is followed, in its own block or in an enclosing one and
+    # before the with-block, by such a store
+    parent = {}
+    for n in ast.walk(t):
+        for fld, val in ast.iter_fields(n):
+            if isinstance(val, list):
+                for k, c in enumerate(val):
+                    if isinstance(c, ast.AST):
+                        parent[c] = (n, val, k)
+    store_nodes = [a for a, _, _ in stores]
+    for a in ast.walk(t):
+        if isinstance(a, (ast.Assign, ast.AnnAssign)) and isinstance(getattr(a, 'value', None), ast.Call) \
+                and isinstance(a.value.func, ast.Name) and a.value.func.id in ('Wrapper', 'DeadlineWrapper'):
+            ok, cur = a in store_nodes, a
+            while not ok and cur in parent:
+                _, block, k = parent[cur]
+                ok = any(x in store_nodes and x.lineno < w.lineno for x in block[k + 1:])
+                cur = parent[cur][0]
+            need(ok, 'a wrapper is created (line %d) but not stored on the protocol stream' % a.lineno)
+    for a, ns, val in stores:
+        ok = wname in ns or (isinstance(val, ast.Call) and isinstance(val.func, ast.Name)
+                             and val.func.id in ('Wrapper', 'DeadlineWrapper') and wname in ns)
+        need(ok and a.lineno < w.lineno, 'what is stored on the stream is the wrapper entered afterwards')
+    checked.append('grpclib/server.py:request_handler')
+
+
+def check_reset_and_release(tree, checked):
+    ps = paths_of(tree, 'EventsProcessor', 'process_stream_reset', {})
+    known = [p for p in ps if any('.__terminated__(' in e for e in p[1])]
+    unknown = [p for p in ps if p not in known]
+    need(known and unknown, 'process_stream_reset cases')
+    for cond, eff, o in known:
+        i = [k for k, e in enumerate(eff) if '.__terminated__(' in e]
+        j = [k for k, e in enumerate(eff) if e.startswith('self.handler.cancel(')]
+        need(len(i) == 1 and len(j) == 1 and i[0] < j[0] and not raises(o),
+             'process_stream_reset: __terminated__ THEN handler.cancel: %r' % (eff,))
+        need(any(a.endswith(' is None') and not v for a, v in cond.items()), 'process_stream_reset guard: %r' % (cond,))
+    for cond, eff, o in unknown:
+        need(not any('cancel' in e for e in eff) and not raises(o) and
+             any(a.endswith(' is None') and v for a, v in cond.items()), 'process_stream_reset, unknown stream: %r' % (eff,))
+    need(len({tuple(e for e in eff if 'streams_failed' in e) for _, eff, _ in ps}) == 1, 'streams_failed on every path')
+    reg = func_node(tree, 'register', 'EventsProcessor')
+    inner = [s for s in reg.body if isinstance(s, ast.FunctionDef)]
+    need(len(inner) == 1, 'register defines the release callback')
+    ps = paths_of(tree, 'EventsProcessor', None, {}, fn=inner[0])
+    need(ps and all(any('.pop(' in e and e.endswith(', None)') for e in eff) for _, eff, _ in ps),
+         'release pops the stream with a default')
+    gone = [p for p in ps if any(a.endswith(' is None') and v for a, v in p[0].items())]
+    need(gone and all(len(eff) == 1 for _, eff, _ in gone), 'release is idempotent (nothing happens the second time)')
+    checked += ['grpclib/protocol.py:EventsProcessor.process_stream_reset',
+                'grpclib/protocol.py:EventsProcessor.register.<release callback>']
+
+
+def check_wrapper_exit(tree, checked):
+    ps = paths_of(tree, 'Wrapper', '__exit__', {'_tasks': 'A0', '_error': 'A1'})
+    need(len(ps) == 2, 'Wrapper.__exit__ cases')
+    for cond, eff, o in ps:
+        need(any('self.A0.discard(' in e for e in eff), 'Wrapper.__exit__ leaves the task set: %r' % (eff,))
+        if cond.get('self.A1 is None') is False:
+            need('self.cancel_failed := p1 is not asyncio.CancelledError' in eff and raises(o, 'self.A1'),
+                 'Wrapper.__exit__ with an error: %r' % (eff,))
+        else:
+            need(o is None and not any('cancel_failed' in e for e in eff), 'Wrapper.__exit__ without an error: %r' % (eff,))
+    checked.append('grpclib/utils.py:Wrapper.__exit__')
+
+
 def gc_interval(tree, cls):
     for s in class_node(tree, cls).body:
-        if isinstance(s, ast.Assign) and len(s.targets) == 1 and isinstance(s.targets[0], ast.Name) \
-                and s.targets[0].id == '__gc_interval__':
-            v = ceval(s.value, {})
-            need(isinstance(v, int) and 1 <= v <= 1000, '%s.__gc_interval__ = %r' % (cls, v))
-            return v
+        if isinstance(s, (ast.Assign, ast.AnnAssign)):
+            tg = s.targets[0] if isinstance(s, ast.Assign) else s.target
+            if isinstance(tg, ast.Name) and tg.id == '__gc_interval__' and s.value is not None:
+                v = ceval(s.value, {})
+                need(isinstance(v, int) and 1 <= v <= 1000, '%s.__gc_interval__ = %r' % (cls, v))
+                return v
     raise Unsupported('C09 facts: %s.__gc_interval__ not found' % cls)
 
 
-def check_request_handler(tree):
-    fn = func_node(tree, 'request_handler')
-    body = [s for s in fn.body if not (isinstance(s, ast.Expr) and isinstance(s.value, ast.Constant))]
-    need(len(body) == 1 and isinstance(body[0], ast.Try), 'request_handler is one try statement')
-    t = body[0]
-    need([canon(s) for s in t.finalbody] == ['release_stream()'], 'request_handler finally: release_stream()')
-    need([canon(h.type) for h in t.handlers] == ['ProtocolError', 'Exception'],
-         'request_handler outer handlers (no BaseException handler: CancelledError propagates)')
-    found = []
-    for w in ast.walk(t):
-        if isinstance(w, ast.With) and [canon(i.context_expr) for i in w.items] == ['deadline_wrapper', 'wrapper']:
-            found.append([canon(s) for s in w.body][-1])
-    need(found == ['await method_func(stream)'], 'user function awaited inside `with deadline_wrapper, wrapper`: %r' % found)
-    wr = [canon(s) for s in ast.walk(t) if isinstance(s, ast.Assign) and 'Wrapper()' in canon(s)]
-    need(sorted(wr) == ['wrapper = _stream.wrapper = DeadlineWrapper()', 'wrapper = _stream.wrapper = Wrapper()'],
-         'the wrapper is created in the task and stored on the protocol stream: %r' % wr)
-
-
-def check_reset_and_release(tree):
-    fn = func_node(tree, 'process_stream_reset', 'EventsProcessor')
-    b = body_of(fn)
-    need(len(b) == 3 and b[0] == 'stream = self.streams.get(event.stream_id)'
-         and b[2] == 'self.connection.streams_failed += 1', 'process_stream_reset skeleton: %r' % b)
-    iff = [s for s in fn.body if isinstance(s, ast.If)]
-    need(len(iff) == 1 and canon(iff[0].test) == 'stream is not None' and not iff[0].orelse, 'process_stream_reset if')
-    tail = [canon(s) for s in iff[0].body][-2:]
-    need(tail == ['stream.__terminated__(msg)', 'self.handler.cancel(stream)'],
-         'process_stream_reset: __terminated__ THEN handler.cancel: %r' % tail)
-    reg = func_node(tree, 'register', 'EventsProcessor')
-    inner = [s for s in reg.body if isinstance(s, ast.FunctionDef) and s.name == 'release_stream']
-    need(len(inner) == 1, 'register defines release_stream')
-    rb = body_of(inner[0])
-    need(rb[:3] == ['assert stream.id is not None', '_stream = _streams.pop(stream.id, None)',
-                    'if _stream is None: return'], 'release_stream is idempotent: %r' % rb[:3])
-
-
 def generate(repo):
-    trees = {}
     checked = []
-    for (rel, cls, name), exp in sorted(EXPECTED.items(), key=lambda kv: (kv[0][0], kv[0][1] or '', kv[0][2])):
-        tree = trees.setdefault(rel, parse(repo, rel))
-        got = body_of(func_node(tree, name, cls))
-        need(got == exp, '%s %s.%s changed:\n  expected %r\n  found    %r' % (rel, cls, name, exp, got))
-        checked.append('%s:%s%s' % (rel, (cls + '.') if cls else '', name))
-    srv = trees['grpclib/server.py']
-    check_request_handler(srv)
-    check_reset_and_release(trees['grpclib/protocol.py'])
-    checked += ['grpclib/server.py:request_handler', 'grpclib/protocol.py:EventsProcessor.process_stream_reset',
-                'grpclib/protocol.py:EventsProcessor.register.release_stream']
+    srv = parse(repo, 'grpclib/server.py')
+    pro = parse(repo, 'grpclib/protocol.py')
+    utl = parse(repo, 'grpclib/utils.py')
+    check_table(srv, 'grpclib/server.py', 'Handler', HANDLER, checked)
+    check_table(srv, 'grpclib/server.py', '_GC', GC, checked)
+    check_server(srv, checked)
+    check_request_handler(srv, checked)
+    check_table(pro, 'grpclib/protocol.py', 'Stream', STREAM, checked)
+    check_table(pro, 'grpclib/protocol.py', 'EventsProcessor', PROCESSOR, checked)
+    check_reset_and_release(pro, checked)
+    check_table(utl, 'grpclib/utils.py', 'Wrapper', WRAPPER, checked)
+    check_wrapper_exit(utl, checked)
     hi, si = gc_interval(srv, 'Handler'), gc_interval(srv, 'Server')
     out = ['(* GENERATED by tools/facts_C09.py from the current source -- do not edit. *)',
-           '(* statement skeletons checked (fail-closed): *)']
-    out += ['(*   %s *)' % c for c in checked]
+           '(* meaning of these functions checked (fail-closed, normal forms -- see the translator): *)']
+    out += ['(*   %s *)' % c for c in sorted(checked)]
     out += ['Definition handler_gc_interval : nat := %d.   (* Handler.__gc_interval__ *)' % hi,
             'Definition server_gc_interval : nat := %d.    (* Server.__gc_interval__ *)' % si, '']
     return '\n'.join(out)
@@ -173,4 +711,21 @@ def generate(repo):
 
 if __name__ == '__main__':
     import os
-    print(generate(os.environ.get('VERIF_REPO', '/repo')))
+    import sys
+    if len(sys.argv) > 1 and sys.argv[1] == '--show':
+        repo = os.environ.get('VERIF_REPO', '/repo')
+        for rel, cls, names in [('grpclib/server.py', 'Handler', [n for n, _, _ in HANDLER]),
+                                ('grpclib/server.py', '_GC', ['__gc_step__']),
+                                ('grpclib/server.py', 'Server', ['__gc_collect__', '_protocol_factory', 'close', 'wait_closed']),
+                                ('grpclib/protocol.py', 'Stream', ['__terminated__']),
+                                ('grpclib/protocol.py', 'EventsProcessor', ['close', 'process_stream_reset']),
+                                ('grpclib/utils.py', 'Wrapper', ['cancel', '__enter__', '__exit__'])]:
+            tree = parse(repo, rel)
+            roles = {}
+            for n in names:
+                print(cls, n)
+                for ln in normal_form(tree, cls, n, roles, unordered=(n == 'close' and cls == 'Handler')):
+                    print('    ', ln)
+            print('   roles', roles)
+    else:
+        print(generate(os.environ.get('VERIF_REPO', '/repo')))
